@@ -336,11 +336,14 @@ one_case (int m, int kind, int pli, int ep)
     {
       if (kind == K_SMALL_RA || kind == K_SMALL_RA_NOMEM)
         {
+          /* previous user's secret in the undersized block, at its start and well past the first 384 bytes */
           vh_seam_armed = 1;
-          rad = malloc (200);
+          rad = malloc (1400);
           vh_seam_armed = 0;
-          memcpy (rad, phrase, pl < 200 ? pl : 200);       /* previous user's secret in the undersized block */
-          rasz = 200;
+          memset (rad, 0, 1400);
+          memcpy (rad, phrase, pl < 200 ? pl : 200);
+          memcpy ((char *) rad + 700, phrase, pl);
+          rasz = 1400;
         }
       else
         {
